@@ -12,6 +12,8 @@ def enumerate_schedules(nstreams, depth, with_window=True):
     if with_window:
         for k in keys:
             base += ["P:0~A%d~W%d" % (k, k), "P:0~I%d" % k, "P:0~C%d~W%d" % (k, k)]
+        # the first stream polled by this call yields (wakes the waker it is polled with, returns Pending)
+        base += ["P:0~Y"]
     out = []
 
     def rec(seq, inserted, items, closed):
@@ -98,6 +100,8 @@ def random_schedule(rng, nstreams, depth, removes=False, spurious=False):
                 evs = []
                 for _ in range(rng.randint(1, 3)):
                     evs += env_event()
+                if rng.random() < 0.25:
+                    evs.insert(rng.randint(0, len(evs)), "Y")
                 seq.append("P:%d~%s" % (rng.choice([0, 0, 1, 2]), "~".join(evs)))
             else:
                 seq.append("P")
